@@ -290,7 +290,7 @@ func (bs *BinarySpray) NotifyNewBundle(bp BundleDescriptor) {
 			"bundle":           bp.ID(),
 			"remaining_copies": metadata.remainingCopies,
 		}).Debug("SprayAndWait received bundle from foreign host")
-	} else {
+	} else if bs.c.HasEndpoint(bp.MustBundle().PrimaryBlock.SourceNode) {
 		metadata := sprayMetaData{
 			sent:            make([]bpv7.EndpointID, 0),
 			remainingCopies: bs.l,
@@ -303,6 +303,25 @@ func (bs *BinarySpray) NotifyNewBundle(bp BundleDescriptor) {
 		log.WithFields(log.Fields{
 			"bundle": bp.ID(),
 		}).Debug("SprayAndWait initialised new bundle from this host")
+	} else {
+		// A foreign bundle without a BinarySprayBlock, e.g., from a node using another routing algorithm, is a single
+		// copy, as for SprayAndWait. It must neither be multiplied nor be sent back to its previous node.
+		metadata := sprayMetaData{
+			sent:            make([]bpv7.EndpointID, 0),
+			remainingCopies: 1,
+		}
+
+		if pnBlock, err := bp.MustBundle().ExtensionBlock(bpv7.ExtBlockTypePreviousNodeBlock); err == nil {
+			metadata.sent = append(metadata.sent, pnBlock.Value.(*bpv7.PreviousNodeBlock).Endpoint())
+		}
+
+		bs.dataMutex.Lock()
+		bs.bundleData[bp.Id] = metadata
+		bs.dataMutex.Unlock()
+
+		log.WithFields(log.Fields{
+			"bundle": bp.ID(),
+		}).Debug("SprayAndWait received bundle without metadata from foreign host")
 	}
 }
 
